@@ -291,7 +291,7 @@ def ev(S, F, x, asg, tabs=None):
         if isinstance(v, tuple) and v and v[0] == "adt" and v[1].startswith("core::ops::ControlFlow::"):
             return 0 if v[1].endswith("Continue") else 1
         if isinstance(v, tuple) and v and v[0] == "adt":
-            info = S.enums.get(x[1]) if hasattr(S, "enums") else None
+            info = S.enums.get(x) if hasattr(S, "enums") else None
             if info:
                 for val, nm in info[1].items():
                     if v[1].endswith("::" + nm):
